@@ -256,6 +256,101 @@ def runTrace1 (s : St) : List String → List String → List String
       | some s' => runTrace1 s' ws (showSt1 s' :: acc)
     else ("bad" :: acc).reverse
 
+/-! ### gate-level view for k application threads on m queues
+`harness/c12_gate2.go` parks TWO real application goroutines (plus `runAsync` and `runEngine`) at the
+same yield points and records `c12 ksched2` cases. A harness move of role `a<j>` / `r` / `e` is one
+`step` of that thread followed by the silent steps up to the next park point:
+* the application pc `enqN` is not a park point (`Enqueue` = append + `NotifyAllSubscribers`);
+* several threads can be blocked in the send on the unbuffered `enqueueSignal`; Go queues blocked
+  senders first-in first-out (`hchan.sendq`), so when `runAsync` is back in its `select` the OLDEST
+  blocked sender is served (and `runAsync` parks again at `async.afterRecv`): `GSt.blocked`;
+* the engine pcs `loop`, `deq (i+1)`, `notify i`, `clear` are not park points. -/
+
+/-- gate-level state: the protocol state plus the order in which threads blocked on `enqueueSignal` -/
+structure GSt where
+  st : St
+  /-- threads blocked in `d.enqueueSignal <- true`, oldest first -/
+  blocked : List Nat := []
+deriving DecidableEq, Repr
+
+def initK (scripts : List (List Op)) (nq : Nat) : GSt := { st := init scripts nq }
+
+/-- `step` when the thread can move, else stay -/
+def tryStep (s : St) (t : Th) : St := match step s t with
+  | some s' => s'
+  | none => s
+
+def pcOf (s : St) (j : Nat) : Option APc := (s.apps[j]?).map (·.pc)
+
+/-- enough engine steps to reach the next park point: at most two per queue inside a tick event,
+    plus end of tick, `loop`, `afterRun`/`clear` -/
+def fuelE (s : St) : Nat := 2 * s.qs.length + 6
+
+/-- `runAsync` is back in its `select`: the oldest blocked sender (if any) is served -/
+def serveK (g : GSt) : GSt :=
+  if g.st.r = .idle then
+    match g.blocked with
+    | [] => g
+    | j :: rest =>
+      if pcOf g.st j = some .sending then { st := tryStep g.st (.app j), blocked := rest } else g
+  else g
+
+/-- a move of application thread `j`: not movable while blocked in the send or in `Wait` -/
+def macroApp (g : GSt) (j : Nat) : Option GSt :=
+  if pcOf g.st j = some .sending then none else
+  match step g.st (.app j) with
+  | none => none
+  | some s1 =>
+    if pcOf s1 j = some .enqN then some { g with st := tryStep s1 (.app j) }
+    else if pcOf s1 j = some .sending then some { st := s1, blocked := g.blocked ++ [j] }
+    else some { g with st := s1 }
+
+/-- `"a0"`, `"a1"`, … ↦ thread number -/
+def appRole? (role : String) : Option Nat :=
+  if role.startsWith "a" then (role.drop 1).toString.toNat? else none
+
+def macroStepK (g : GSt) (role : String) : Option GSt :=
+  if role = "r" then (step g.st .async).map fun s1 => serveK { g with st := s1 }
+  else if role = "e" then (step g.st .eng).map fun s1 => { g with st := settleE (fuelE s1) s1 }
+  else match appRole? role with
+    | some j => macroApp g j
+    | none => none
+
+def showApp (a : App) : String := s!"{apcName a.pc}/{b01 a.token}/{a.returned}"
+
+/-- observation of the gate harness: per thread `pc/token/returned` joined by `+`, then `.r.e`,
+    the queued command ids of every queue (joined by `|`), the flags `running` `pend` -/
+def showStK (g : GSt) : String :=
+  let s := g.st
+  let qs := (List.range s.qs.length).map fun i => Util.joinWith "," ((cmdsOf s i).map toString)
+  s!"{Util.joinWith "+" (s.apps.map showApp)}.{rpcName s.r}.{epcName s.e}:{Util.joinWith "|" qs}:{b01 s.running}{b01 s.pend}"
+
+/-- the gate-level state after a list of moves (a move of a role that cannot move is skipped) -/
+def finalK (g : GSt) : List String → GSt
+  | [] => g
+  | w :: ws => match macroStepK g w with
+    | none => finalK g ws
+    | some g' => finalK g' ws
+
+def runTraceK (g : GSt) : List String → List String → List String
+  | [], acc => acc.reverse
+  | w :: ws, acc =>
+    if w = "r" ∨ w = "e" ∨ (appRole? w).isSome then
+      match macroStepK g w with
+      | none => runTraceK g ws ("-" :: acc)
+      | some g' => runTraceK g' ws (showStK g' :: acc)
+    else ("bad" :: acc).reverse
+
+/-- `e<q>` = `Enqueue` on queue `q`, `d<q>` = `DrainCommandQueue(q)` -/
+def parseOpK (w : String) : Option Op :=
+  if w.startsWith "e" then (w.drop 1).toString.toNat?.map .enq
+  else if w.startsWith "d" then (w.drop 1).toString.toNat?.map .drain
+  else none
+
+/-- `e0,d0|e1,d1` ↦ the scripts of thread 0, thread 1, … (`-` = empty script) -/
+def parseScriptsK (s : String) : Option (List (List Op)) :=
+  (s.splitOn "|").mapM fun sc => if sc = "" ∨ sc = "-" then some [] else (sc.splitOn ",").mapM parseOpK
+
 end K
 
 end C12
